@@ -624,9 +624,15 @@ func c19IPNewFix(x *h.Ctx, posted bool, scope string) *c19IPFix {
 		_ = json.Unmarshal([]byte(body), &r)
 		u, _ := url.Parse(r.RedirectURI)
 		if status != 200 || u == nil || u.Query().Get("code") == "" {
-			x.Fatalf("valid direct_post refused: %d %s", status, body)
+			if f.scope == c19IPScope {
+				x.Fatalf("valid direct_post refused: %d %s", status, body)
+			}
+			// under the submission-requirements definition a refusal of the wallet-built presentation is a functional matter
+			// (C12's), not this property's: go on without an authorization code
+			x.Class("fixture:valid-direct_post-refused(scope=sr)")
+		} else {
+			f.code = u.Query().Get("code")
 		}
-		f.code = u.Query().Get("code")
 	}
 	// 3b. a request object that is to be fetched with POST (created without audience, as for a user wallet)
 	f.requestIDPost = "verifc19-post-request-object"
